@@ -252,7 +252,7 @@ def _init_loop_spec():
             # the output was already done when chain_cancel ran: the forwarding callback ran at once
             canc = [e for e in events if e.kind == "call" and e.meth == "cancel"]
             out_cl.append(("output already done at registration: forwarding callback ran immediately (cancel() on this input iff the output is cancelled)",
-                           z3.And(z3.BoolVal(len(on_out) == 0 and len(canc) <= 1),
+                           z3.And(z3.BoolVal(len(on_out) == 0 and len(canc) <= 1 and any(a == "not self.done()" and not b for a, b in st.decisions)),
                                   canc[0].recv == Val.id(x) if canc else z3.BoolVal(True))))
         # (2) completion: when this input finishes, handle_done(this operation, this input) runs once
         if on_x[0].extra.get("immediate"):
